@@ -136,9 +136,15 @@ func cmdCheck(eng *Engine, args []string) int {
 	t0 := time.Now()
 	tmp, _ := os.MkdirTemp("", "govc")
 	defer os.RemoveAll(tmp)
-	cfg := &SolverCfg{TimeoutS: 10, TmpDir: tmp}
+	cfg := &SolverCfg{TimeoutS: 10, PatienceS: 120, TmpDir: tmp, NoPatience: map[string]bool{}}
+	for _, k := range loadKnown(filepath.Join(verifDir, "known_findings.txt")) {
+		if k.Status == "open" && k.Obligation != "" {
+			cfg.NoPatience[k.Obligation] = true
+		}
+	}
 	if tier == "thorough" {
 		cfg.TimeoutS = 60
+		cfg.PatienceS = 300
 		cfg.All = true
 	}
 	anchors := loadAnchors(verifDir, id)
@@ -353,6 +359,7 @@ func cmdCheck(eng *Engine, args []string) int {
 	scanResults = append(scanResults, eng.loopVarChecks(id)...)
 	scanResults = append(scanResults, eng.quotedParamChecks(id)...)
 	scanResults = append(scanResults, eng.usedTypesChecks(id)...)
+	scanResults = append(scanResults, eng.layoutChecks(id)...)
 	if id == "C16" {
 		scanResults = append(scanResults, eng.repeatChecks(id)...)
 		// determinism of what is computed: C06's obligation set, re-run under C16
